@@ -174,4 +174,32 @@ theorem call_keeps_words_representable (S : RS) (xs : List Int) (hI : Inv S) (hW
 
 example : WordsOk (fresh ⟨2, 80, 87382, 0, 0, 8, 12, 0, 0⟩) := fresh_words _
 
+/-- The delay line, for every kernel and every state satisfying `Inv`: (1) one call runs the kernel on the first
+    millisecond of `stream S xs` — the inputDelay buffered samples followed by the input without its last inputDelay
+    samples — and then on the rest of it; (2) afterwards delayBuf[0 .. inputDelay) holds the last inputDelay input
+    samples; (3) hence the streams of two consecutive calls on a, b concatenate to the stream of one call on a ++ b:
+    across calls the kernels see the input delayed by exactly inputDelay samples, none lost or duplicated at a call
+    boundary.  (Chunk invariance of the whole resampler thereby reduces to that of the kernel on its stream: proved
+    for copy / up2_HQ above, open for the batch kernels.) -/
+theorem delay_line (S : RS) (a b : List Int) (hI : Inv S) (ha : S.cfg.fsIn ≤ a.length) (hb : S.cfg.fsIn ≤ b.length)
+    (hxa : ∀ v ∈ a, I16 v) :
+    (resampler S a =
+      (kernel { S with delayBuf := dbufAfterCopy S a } ((stream S a).take S.cfg.fsIn)).bind fun r1 =>
+      (kernel r1.1 ((stream S a).drop S.cfg.fsIn)).bind fun r2 =>
+      (blit r2.1.delayBuf 0 (a.drop (a.length - S.cfg.inputDelay))).bind fun db2 =>
+      .ok ({ r2.1 with delayBuf := db2 }, r1.2 ++ r2.2)) ∧
+    ∃ S1 o1, resampler S a = .ok (S1, o1) ∧
+      S1.delayBuf.take S.cfg.inputDelay = a.drop (a.length - S.cfg.inputDelay) ∧
+      stream S (a ++ b) = stream S a ++ stream S1 b := by
+  have hc := cfgTable_facts _ hI.cfg
+  simp only [cfgFacts, Bool.and_eq_true, decide_eq_true_eq] at hc
+  obtain ⟨⟨⟨⟨⟨⟨⟨_, h2⟩, h3⟩, _⟩, _⟩, _⟩, _⟩, _⟩ := hc
+  refine ⟨resampler_via_stream S a h3 h2 hI.dbuf ha, ?_⟩
+  obtain ⟨S1, o1, hr, _, hc1, _, _⟩ := resampler_ok S a hI ha hxa
+  have hd := resampler_dbuf S a hI ha hxa _ hr
+  exact ⟨S1, o1, hr, hd, stream_concat S S1 a b hc1 hd (by omega) (by omega)⟩
+
+example : stream (fresh ⟨3, 480, 196608, 36, 1, 48, 16, 12, 4⟩) (List.replicate 48 7) =
+    List.replicate 12 0 ++ List.replicate 36 7 := by decide +kernel
+
 end OpusProps.C03SilkResamp
